@@ -154,8 +154,8 @@ def parseRRuleLine (line : List Char) : Py.R RArgs := do
     else .ok line)
   (splitOnChar ';' value).foldlM stepPair {}
 
-/-- `rrule(dtstart=…, **rrkwargs)`: a missing FREQ is a TypeError (missing positional argument) -/
-def needFreq (a : RArgs) : Py.R RArgs := if a.freq.isNone then .error .TypeError else .ok a
+/-- `if "freq" not in rrkwargs: raise ValueError` (since the C13 fix; it used to reach `rrule()` and leak TypeError) -/
+def needFreq (a : RArgs) : Py.R RArgs := if a.freq.isNone then .error .ValueError else .ok a
 
 /-! ### date values: only the compact form `__str__` emits -/
 
@@ -266,7 +266,7 @@ def parseRfc (s0 : List Char) (o : Opts) (dtstartKw : Bool := false) : Py.R Pars
         let a ← parseRRuleLine v
         let a ← needFreq a
         .ok (.rule a acc.dtstart)
-      | [] => .error .IndexError                -- rrulevals[0] on an empty list
+      | [] => .error .ValueError                -- `if not rrulevals: raise ValueError` (since the C13 fix)
 
 /-! ### `rrule.__str__` -/
 
